@@ -2,7 +2,7 @@ import os, json, collections
 import common as C
 
 HEADER = ("From Coq Require Import List Arith Bool NArith. Import ListNotations.\n"
-          "From Crux Require Import Rt.Lang Rt.Rt Rt.Host Rt.Check.\n")
+          "From Crux Require Import Rt.Lang Rt.Rt Rt.Host Rt.Legacy Rt.Check.\n")
 
 def gen_cases(run, count, release=True):
     ok, log, bins = C.harness_build(["rt_run"], release=release)
@@ -17,17 +17,26 @@ def case_term(c):
     return "(%s, %s, %s, %s, %s, %s)" % ("true" if c["host"] == "core" else "false", "true" if c.get("drained") else "false",
                                          c["prog"], c["handlers"], c["acts"], c["impl"])
 
+LEGACY_FN = {"verdicts_C01": "verdicts_legacy_C01", "verdicts_C03": "verdicts_legacy_C03"}
 def eval_cases(run, prop, cases, fn):
+    """Command-API cases (direct / core hosts) go through `fn`; cases of the legacy capability API host go
+    through the matching legacy verdict function (model = Rt/Legacy.v)."""
+    legacy = [c for c in cases if c["host"] == "legacy"]
+    cases = [c for c in cases if c["host"] != "legacy"]
     nsh = 16
-    shards = [cases[i::nsh] for i in range(nsh)]
-    shards = [s for s in shards if s]
+    shards = [s for s in (cases[i::nsh] for i in range(nsh)) if s]
     texts = [HEADER + "Definition cs : list rtcase := [\n" + ";\n".join(case_term(c) for c in sh) + "].\nEval vm_compute in (%s cs).\n" % fn for sh in shards]
+    lfn = LEGACY_FN.get(fn, "verdicts_legacy_any") if fn != "fragment_flags" else None
+    lshards = [s for s in (legacy[i::4] for i in range(4)) if s] if lfn else []
+    texts += [HEADER + "Definition cs : list lcase := [\n" + ";\n".join("(%s, %s, %s)" % (c["handlers"], c["acts"], c["impl"]) for c in sh) + "].\nEval vm_compute in (%s cs).\n" % lfn for sh in lshards]
     res = C.run_case_files(prop, texts)
     out = []
-    for sh, (ok, vals, raw) in zip(shards, res):
+    for sh, (ok, vals, raw) in zip(shards + lshards, res):
         if not ok or len(vals) != 1 or len(vals[0]) != len(sh):
             run.oblige("case-evaluation shard (%s)" % prop, False, raw[-1200:]); continue
         out += list(zip(sh, vals[0]))
+    if fn == "fragment_flags":
+        out += [(c, 0) for c in legacy]
     return out
 
 RULES = {
